@@ -14,4 +14,5 @@ import MakoModel.Props.C15
 import MakoModel.Props.C16
 import MakoModel.Props.C17
 import MakoModel.Props.C18
+import MakoModel.Props.C19
 import MakoModel.Props.C20
